@@ -943,7 +943,7 @@ pub fn run(ctx: &Ctx, pid: &'static str) -> ! {
     let max_ops = if pid == "C13" || pid == "C14" { 60 } else { 40 };
     let mut st = parallel(|w, st| {
         let strat = scenario_s(max_ops, with_time);
-        let mut runner = TestRunner::new(Config { cases: cases / WORKERS as u32, failure_persistence: None, rng_seed: RngSeed::Fixed(ctx.seed ^ ((pid.as_bytes()[2] as u64) << 8) ^ (0x7000 + w as u64)), max_shrink_iters: 3000, ..Config::default() });
+        let mut runner = TestRunner::new(Config { cases: cases / WORKERS as u32, failure_persistence: None, rng_seed: RngSeed::Fixed(runner_seed(ctx.seed, 0x7000 + pid.as_bytes()[2] as u64, w as u64)), max_shrink_iters: 3000, ..Config::default() });
         // a known finding is excluded by construction (counted) so that the search continues
         let known: Vec<String> = ctx.known.iter().filter(|k| k.status == "known").map(|k| k.signature.clone()).collect();
         let local = std::cell::RefCell::new((Stats::default(), true));
